@@ -36,6 +36,9 @@ package lexer
 
 //@ func (*Location).IsInitialLoc
 //@   sweep C01
+//@   props C05
+//@   pure
+//@   ensures[is-the-zero-range] result <==> (loc.StartLine == 0 && loc.StartColumn == 0 && loc.EndLine == 0 && loc.EndColumn == 0)
 //@ end
 
 //@ func (*Location).IsInLocStruct
@@ -166,6 +169,13 @@ package lexer
 //@   ensures len(s) == 1 ==> (result <==> len(l.chunk) >= 1 && l.chunk[0] == s[0])
 //@   ensures len(s) == 2 ==> (result <==> len(l.chunk) >= 2 && l.chunk[0] == s[0] && l.chunk[1] == s[1])
 //@   loop 0 invariant 0 <= i && i <= sLen && sLen == len(s) && sLen <= len(l.chunk) && forall(k, 0, i, l.chunk[k] == s[k])
+//@ end
+// C03: a multi-character symbol ("...", "::", "==", "//", ...) is recognised exactly when the remaining text starts
+// with it - also when the symbol is ALL that remains (a chunk may end in "..." or in a label's "::")
+//@ func (*Lexer).test
+//@   props C03
+//@   ensures[symbol-recognised-iff-the-remaining-text-starts-with-it] result <==> (len(l.chunk) >= len(s) && forall(k, 0, len(s), l.chunk[k] == s[k]))
+//@   loop 0 invariant [C03] 0 <= i && i <= sLen && sLen == len(s) && sLen <= len(l.chunk) && forall(k, 0, i, l.chunk[k] == s[k])
 //@ end
 
 // errorPrint calls the installed handler (a function value). The only handler ever installed is
